@@ -60,7 +60,9 @@ PROPS['C10'] = {
     'bx': ['c10'],
     'rule': 'Verus verification conditions of unit parse (iterator contract against the exposed-stream spec).',
     'proved': ['MessageAttributesIter::next yields exactly exposed_from(bytes, 20, 0): everything up to and including the first integrity attribute, MI-SHA256 directly after MI, FINGERPRINT; hidden attributes are skipped',
-               ],
+               'lemma_exposed_split / lemma_exposed_after_integrity: every exposed attribute other than MESSAGE-INTEGRITY-SHA256 / FINGERPRINT lies before the end of the first integrity attribute (inside the bytes the checked HMAC covers)',
+               'lemma_prefix_stable: two buffers that agree up to the end of the first integrity attribute expose the same attributes before it',
+               '(unit integrity) validate_integrity checks an exposed integrity attribute whose HMAC input is the message prefix up to that attribute'],
     'bounded': ['lookups raw_attribute/has_attribute/attribute go through iterator adaptors: BX'],
     'trusted': _PARSE_TRUST,
 }
@@ -131,12 +133,14 @@ PROPS['C08'] = {
     'rule': 'Kani complete harnesses for the ten fixed-size attribute types (symbolic type code, 0..=40 symbolic value bytes); BX for the nine variable-length types.',
     'proved': ['PRIORITY, USE-CANDIDATE, ICE-CONTROLLED, ICE-CONTROLLING, FINGERPRINT, MESSAGE-INTEGRITY, USERHASH, XOR-MAPPED-ADDRESS, ALTERNATE-SERVER, PASSWORD-ALGORITHM: decode Ok <=> RFC type code and RFC value encoding; other type => WrongAttributeImplementation; getters = encoded fields; encode = RFC layout; decode(encode(v)) = v; re-encode stable',
                'ERROR-CODE class/number arithmetic on all 65536 byte pairs; ErrorCode::new accepts exactly 300..=699', 'check_len for all lengths and range shapes',
-               '(Verus, unit attrs, value strings of ANY length) USERNAME / REALM / NONCE / SOFTWARE / ALTERNATE-DOMAIN: accepted <=> type code, length limit (513 / 763 / none), valid UTF-8; the text encodes to exactly the value bytes. ERROR-CODE: accepted <=> 4..=767 bytes, class 3..6, number <= 99, UTF-8 reason; code and reason exposed. PASSWORD-ALGORITHM(S): accepted <=> positive multiple of 4, every entry algorithm 1|2 with empty parameters; list exposed in order. PRIORITY, USE-CANDIDATE, ICE-CONTROLLED/-CONTROLLING, USERHASH, MESSAGE-INTEGRITY(-SHA256) also in Verus; wrong type => WrongAttributeImplementation'],
-    'bounded': ['encode side (to_raw / write_into_unchecked / length) of the variable-length types, constructors, UNKNOWN-ATTRIBUTES decoder (chunks_exact iterator): BX, all lengths 0..=800 with ASCII / multi-byte UTF-8 / invalid UTF-8 fillers'],
+               '(Verus, unit attrs, value strings of ANY length) USERNAME / REALM / NONCE / SOFTWARE / ALTERNATE-DOMAIN: accepted <=> type code, length limit (513 / 763 / none), valid UTF-8; the text encodes to exactly the value bytes. ERROR-CODE: accepted <=> 4..=767 bytes, class 3..6, number <= 99, UTF-8 reason; code and reason exposed. PASSWORD-ALGORITHM(S): accepted <=> positive multiple of 4, every entry algorithm 1|2 with empty parameters; list exposed in order. PRIORITY, USE-CANDIDATE, ICE-CONTROLLED/-CONTROLLING, USERHASH, MESSAGE-INTEGRITY(-SHA256) also in Verus; wrong type => WrongAttributeImplementation',
+               '(Verus) encode side within reach: RawAttribute::new; USERNAME/REALM/NONCE/SOFTWARE get_type, length() == UTF-8 byte length, to_raw() carries the type code and exactly the UTF-8 bytes, getters return the text'],
+    'bounded': ['in-place writers (write_into_unchecked: `&mut [u8]` sub-slice copy/fill has no Verus spec) and to_raw of ERROR-CODE / UNKNOWN-ATTRIBUTES / PASSWORD-ALGORITHMS, constructors (vstd specifies str::len only for ASCII), UNKNOWN-ATTRIBUTES decoder (chunks_exact iterator): BX, all lengths 0..=800 with ASCII / multi-byte UTF-8 / invalid UTF-8 fillers'],
     'trusted': _KX_TRUST,
 }
 PROPS['C12'] = {
     'level': 'exploration',
+    'vx': [{'unit': 'attrs', 'functions': ['to_raw', 'length', 'get_type', "RawAttribute<'a> :: new", 'padded']}],
     'kx': ['k12_raw_attribute'] + [k for k in _ATTR_K if k not in ('k_check_len', 'k08_error_code_new')],
     'bx': ['c12'],
     'rule': 'Kani harnesses: helper check_writers (in-place writer vs RFC layout vs raw conversion, 0xAA-filled oversize buffer, every shorter buffer) on every decodable value of the fixed-size types; BX for variable-length types and builders.',
